@@ -114,6 +114,12 @@ def failing_frames():
     chief.ephem(start=t0, stop=timedelta(hours=2), step=timedelta(minutes=3)).as_frame(
         "VF15chiefQ", orientation="QSW", exists_warning=False)
     Orbit(el, t0, "keplerian", "EME2000", None).as_frame("VF15mute", exists_warning=False)
+    # origin and axes of EME2000, but about a point that is no body (as the library's Lagrange-point frames)
+    from beyond.frames import center, orient
+
+    nobody = center.Center("VF15nobodyC")
+    nobody.add_link(frames.EME2000.center, orient.EME2000, np.zeros(6))
+    frames.Frame("VF15nobody", orient.EME2000, nobody)
 
 
 def setup(shard):
@@ -880,6 +886,15 @@ class Machine:
             self.labels.append("late-failure:cov-" + ("none" if s["cov"] is None else
                                                     "own-frame" if s["cov"][0] == s["frame"] else
                                                     "local" if s["cov"][0] in ("QSW", "TNW") else "other-frame"))
+        elif name == "bodyless":
+            expect = AttributeError
+            twin = o.copy(form="cartesian")
+            if getattr(twin, "cov", None) is not None:
+                del twin.cov
+            twin.frame = "VF15nobody"
+            twin.form = op["geo"]
+            held = (twin.form.name, np.array(twin.base, float), twin.frame.name, twin.date)
+            call = (lambda: setattr(twin, "form", op["target"])) if op["via"] == "set" else (lambda: twin.copy(form=op["target"]))
         else:
             foreign = S.foreign_names(s["form"])
             nm = foreign[op["k"] % len(foreign)]
@@ -900,6 +915,12 @@ class Machine:
             self.add(f"wrong-exception:{label}", f"expected {expect.__name__}, got {type(exc).__name__}: {exc}")
         else:
             self.add(f"not-refused:{label}", f"expected {expect.__name__}, nothing was raised")
+        if name == "bodyless":
+            now = (twin.form.name, np.array(twin.base, float), twin.frame.name, twin.date)
+            if now[0] != held[0] or now[2] != held[2] or now[3] != held[3] or not np.array_equal(now[1], held[1]):
+                self.add(f"after-refusal:{label}", f"a state held in {held[0]} form about a point without body was refused the "
+                         f"form {op['target']} and is left in {now[0]} form {now[1].tolist()} (was {held[1].tolist()})")
+            self.labels.append(f"bodyless:{op['geo']}")
         self.compare_touched(i, dict(s), coord_tol=tol, what=f"after-refusal:{label}")
         self.convertible(i, f"after-refusal:{label}")
 
